@@ -174,6 +174,12 @@ func (srvGrps serverGroups) streamAddrNum() (n uint64) {
 func (srvGrps serverGroups) collectSessTicketPaths() (paths []string) {
 	set := container.NewSortedSliceSet[string]()
 	for _, g := range srvGrps {
+		if g.TLS == nil {
+			// Groups that only have plain-DNS and DNSCrypt servers have no TLS
+			// settings; see [tlsConfig.validate].
+			continue
+		}
+
 		for _, k := range g.TLS.SessionKeys {
 			set.Add(k)
 		}
